@@ -262,8 +262,54 @@ def discharge_exact(site):
     return None
 
 
+def _base_ty(ty):
+    ty = re.sub(r"^(&(?:'\w+ )?(?:mut )?)+", "", (ty or "").strip())
+    out, d = [], 0
+    for ch in ty:
+        if ch == "<":
+            d += 1
+        elif ch == ">":
+            d -= 1
+        elif d == 0:
+            out.append(ch)
+    return "".join(out).strip()
+
+
+def refined_callees(prog, f):
+    """prog.callees(f) without the class-hierarchy edges that cannot exist: an unresolved trait-method call whose receiver type
+    is concrete (`<i128 as From<A>>::from`, `<Vec<T> as Clone>::clone`) can only dispatch to impls for that very type, so
+    workspace impls for other self types are dropped.  A receiver that is a type parameter / dyn / opaque type stays
+    conservative (all workspace impls of the method)."""
+    out = []
+    for g, t, bi in prog.callees(f):
+        if t.get("f") is None and t.get("selfty") and g.b.get("impl_self"):
+            base = _base_ty(t["selfty"])
+            generic = bool(re.match(r"^[A-Z]\w*$", base)) or base.startswith(("dyn ", "impl ")) or base in ("Self",) or not base
+            if not generic and base != _base_ty(g.b["impl_self"]):
+                continue
+        out.append(g)
+    return out + prog.closure_children(f)
+
+
+def refined_closure(prog, entries, stop=None):
+    seen = {}
+    work = []
+    for e in entries:
+        if e.path not in seen:
+            seen[e.path] = (e, None)
+            work.append(e)
+    while work:
+        f = work.pop()
+        for g in refined_callees(prog, f):
+            if g.path in seen or (stop and stop(g)):
+                continue
+            seen[g.path] = (g, f.path)
+            work.append(g)
+    return seen
+
+
 def exact_census(prog, entries, stop=None):
-    closure = prog.closure_of(entries, stop=stop)
+    closure = refined_closure(prog, entries, stop=stop)
     sites = []
     for path, (fn, parent) in closure.items():
         sites.extend(exact_sites(fn))
@@ -471,12 +517,16 @@ def poly(sym, leaf=None):
         return _padd(a, b) if op == "Add" else _padd(a, b, -1) if op == "Sub" else _pmul(a, b)
     if k in ("field", "downcast", "call"):
         u = unwrap_chain(s)
-        if u is not s and u[0] == "call" and len(u[2]) == 2:
+        if u[0] == "call" and len(u[2]) == 2:
             m = re.search(r"^core::num::checked_(add|sub|mul)(_signed|_unsigned)?$", strip_generics(u[1]))
-            if m:
+            if m and (u is not s or True):
                 # the carried value of a checked operation that returned Some
                 a, b = poly(u[2][0], leaf), poly(u[2][1], leaf)
                 return _padd(a, b) if m.group(1) == "add" else _padd(a, b, -1) if m.group(1) == "sub" else _pmul(a, b)
+        if u[0] == "call":
+            c = _carried_through(u)
+            if c is not None:
+                return poly(c, leaf)
     if k == "call":
         n = strip_generics(s[1])
         at = is_arith_trait(n)
@@ -491,6 +541,54 @@ def poly(sym, leaf=None):
     if isinstance(key, dict):
         return key
     return {(key,): 1}
+
+
+def _subst_env(sym, captures):
+    """In a closure body: replace reads of the environment's k-th captured variable by the captured expression."""
+    if not isinstance(sym, tuple) or not sym:
+        return sym
+    if sym[0] == "field" and isinstance(sym[1], tuple):
+        r = strip_refs(sym[1])
+        if r and r[0] == "param" and r[1] == 1:
+            try:
+                kx = int(sym[2])
+            except (TypeError, ValueError):
+                kx = None
+            if kx is not None and kx < len(captures):
+                return captures[kx]
+    if isinstance(sym[0], str):
+        return tuple(_subst_env(x, captures) if isinstance(x, tuple) else x for x in sym)
+    return tuple(_subst_env(x, captures) for x in sym)
+
+
+def _carried_through(u, budget=3):
+    """The value carried by `u` when it is Some/Ok, for two transparent shapes: `x.and_then(|v| f(v))` / `x.map(|v| f(v))`
+    with a straight-line closure (the closure's result with v := the value carried by x), and a call to a straight-line
+    workspace helper (its result with the parameters replaced by the arguments).  None otherwise."""
+    from .mir import _PROGRAM
+    prog = _PROGRAM[0]
+    if prog is None or budget <= 0:
+        return None
+    n = strip_generics(u[1])
+    if re.search(r"(Option|Result)::(and_then|map)$", n) and len(u[2]) == 2:
+        c = unwrap_chain(u[2][1])
+        if c[0] == "agg" and c[1] == "closure":
+            cf = prog.get(c[2])
+            if cf is None:
+                return None
+            from .tabulate import tabulate
+            try:
+                paths = [p for p in tabulate(cf, prog, 8) if p.end == "return"]
+            except Exception:
+                return None
+            if len(paths) != 1 or paths[0].conds or paths[0].ret is None:
+                return None
+            body = _subst_env(paths[0].ret, list(c[3]))
+            return sym_subst(body, {2: u[2][0]})
+        return None
+    if prog.get(u[1]) is not None:
+        return inline_pure(prog, u)
+    return None
 
 
 def poly_str(p):
@@ -729,9 +827,13 @@ def markers(fn, sym):
                 elif "ProtParams" in ty and isinstance(name, str) and not name.isdigit():
                     out.add("PARAMETER:" + name)
             elif sub[0] == "call" and re.search(r"HashMap::get$", strip_generics(sub[1])) and sub[2]:
+                typed = False
                 for x in sym_walk(sub[2][0]):
                     if x[0] == "param" and "MultiEraInput" in (fn.local_ty(x[1]) or "") and "MultiEraOutput" in (fn.local_ty(x[1]) or ""):
                         out.add("UTXO")
+                        typed = True
+                if not typed:
+                    out.add("HMGET")        # a map lookup on a captured / passed-in map: a UTxO lookup iff that map is the UTxO set
             elif sub[0] == "param":
                 ty = fn.local_ty(sub[1]) or ""
                 if "MultiEraInput" in ty and "MultiEraOutput" in ty and "HashMap" in ty:
@@ -748,8 +850,11 @@ def _root_param(s):
     return None
 
 
-def classify_leaf(fn, sym):
-    m = markers(fn, sym)
+def classify_markers(m, what=""):
+    """Role of a leaf value from the set of public inputs it reads."""
+    m = set(m)
+    if "HMGET" in m and "UTXOREF" in m:
+        m.add("UTXO")
     core = {x for x in m if x in ("FEE", "MINT", "OUTPUTS", "UTXO", "DEPOSIT") or x.startswith("OTHER:")}
     if "UTXO" in core:
         rest = core - {"UTXO"}
@@ -762,19 +867,66 @@ def classify_leaf(fn, sym):
         c = next(iter(core))
         return c if not c.startswith("OTHER:") else "UNKNOWN:" + c[6:]
     if not core:
-        s = unwrap_chain(sym)
-        if s[0] == "const":
-            try:
-                return "EMPTY" if int(s[1]) == 0 else "UNKNOWN:constant %s" % s[1]
-            except (TypeError, ValueError):
-                pass
-        return "UNKNOWN:%s" % sym_str(s, 60)
+        return "UNKNOWN:%s" % (what or "value of unrecognised origin")
     return "UNKNOWN:mixed(%s)" % ",".join(sorted(core))
 
 
-def ingredients(prog, fn, sym, depth=6, seen=None):
-    """Set of roles whose values are added (through the value-adding helpers) into the value `sym` of function fn.
-    ('PARAM', i) stands for "whatever the caller passes as parameter i"."""
+def classify_leaf(fn, sym):
+    s = unwrap_chain(sym)
+    if s[0] == "const":
+        try:
+            return "EMPTY" if int(s[1]) == 0 else "UNKNOWN:constant %s" % s[1]
+        except (TypeError, ValueError):
+            pass
+    return classify_markers(markers(fn, sym), sym_str(s, 60))
+
+
+def _params_in(fn, sym):
+    ps = set()
+    for e in expansions(fn, sym):
+        for x in sym_walk(e):
+            if x[0] == "param":
+                ps.add(x[1])
+    return frozenset(ps)
+
+
+def _leaf_item(fn, s, tag="LEAF"):
+    """An addend that is not itself a sum: the public inputs it reads here (markers) and the parameters of this function it
+    is derived from (the caller adds what it passes for them).  A constant 0 is EMPTY."""
+    u = unwrap_chain(s)
+    if u[0] == "const":
+        try:
+            if int(u[1]) == 0:
+                return "EMPTY"
+        except (TypeError, ValueError):
+            pass
+        return (tag, frozenset({"CONST:%s" % (u[1],)}), frozenset(), sym_str(u, 40))
+    return (tag, frozenset(markers(fn, s)), _params_in(fn, s), sym_str(u, 60))
+
+
+def _subst_leaf(fn, item, arg_of):
+    """Re-express a callee's leaf item in the caller: markers of the arguments passed for the parameters it depends on are
+    added, and it now depends on the caller's parameters behind those arguments."""
+    tag, m, ps, what = item
+    m2, ps2 = set(m), set()
+    for p in ps:
+        a = arg_of(p)
+        if a is None:
+            continue
+        for x in a:
+            m2 |= markers(fn, x)
+            ps2 |= _params_in(fn, x)
+    return (tag, frozenset(m2), frozenset(ps2), what)
+
+
+_FOLDS = re.compile(r"::(fold|try_fold)$")
+_ADAPTORS = re.compile(r"::(fold|try_fold|reduce|try_reduce|map|sum|for_each|try_for_each|filter_map|flat_map)$")
+
+
+def ingredients(prog, fn, sym, depth=10, seen=None):
+    """Set of addends that flow (through the value-adding helpers, helper functions, accumulators and folds) into the value
+    `sym` of function fn.  Items: 'EMPTY'; ('PARAM', i) = the value the caller passes as parameter i; ('LEAF'|'MINTARG',
+    markers, params, text) = a value that is not a sum, with the public inputs it reads and the parameters it derives from."""
     if seen is None:
         seen = set()
     s = unwrap_chain(sym)
@@ -783,23 +935,23 @@ def ingredients(prog, fn, sym, depth=6, seen=None):
         return set()
     seen.add(key)
     if depth <= 0:
-        return {"UNKNOWN:too deep"}
+        return {("LEAF", frozenset({"CONST:too-deep"}), frozenset(), "too deep")}
     k = s[0]
     if k == "local" and len(s) > 1:
         out = set()
         for d in local_defs(fn, s[1]):
             out |= ingredients(prog, fn, d, depth, seen)
-        return out or {classify_leaf(fn, s)}
+        return out or {_leaf_item(fn, s)}
     if k == "param":
-        return {("PARAM", s[1])}
+        if _is_value_ty(fn.local_ty(s[1])):
+            return {("PARAM", s[1])}
+        return {_leaf_item(fn, s)}
     if k == "call":
         name = s[1]
         if ADD2.search(name) and len(s[2]) >= 2:
             return ingredients(prog, fn, s[2][0], depth, seen) | ingredients(prog, fn, s[2][1], depth, seen)
         if ADDM.search(name) and len(s[2]) >= 2:
-            m = markers(fn, s[2][1])
-            r = "MINT" if m & {"MINT"} and not (m & {"FEE", "OUTPUTS", "UTXO"}) else "UNKNOWN:minted-operand(%s)" % ",".join(sorted(m))
-            return ingredients(prog, fn, s[2][0], depth, seen) | {r}
+            return ingredients(prog, fn, s[2][0], depth, seen) | {_leaf_item(fn, s[2][1], "MINTARG")}
         if EMPTYV.search(name):
             return {"EMPTY"}
         g = prog.get(name)
@@ -807,57 +959,60 @@ def ingredients(prog, fn, sym, depth=6, seen=None):
             summ = fn_ingredients(prog, g, depth - 1)
             if summ is not None:
                 out = set()
+                arg_of = lambda p: [s[2][p - 1]] if p - 1 < len(s[2]) else None
                 for r in summ:
                     if isinstance(r, tuple) and r[0] == "PARAM":
                         if r[1] - 1 < len(s[2]):
-                            out |= ingredients(prog, fn, s[2][r[1] - 1], depth - 1, seen)
+                            out |= ingredients(prog, fn, s[2][r[1] - 1], depth, seen)
+                    elif isinstance(r, tuple):
+                        out.add(_subst_leaf(fn, r, arg_of))
                     else:
                         out.add(r)
                 return out
-        # iterator folds: the closure's result with its parameters standing for the iterated collection / the seed
+        # iterator adaptors taking a closure: the closure's result, its environment standing for the captured values, its
+        # accumulator parameter for the seed and its item parameter(s) for the iterated collection
         clos = [a for a in s[2] if unwrap_chain(a)[0] == "agg" and unwrap_chain(a)[1] == "closure"]
-        if clos and re.search(r"::(fold|try_fold|reduce|try_reduce|map|sum)$", strip_generics(name)):
+        if clos and _ADAPTORS.search(strip_generics(name)):
             others = [a for a in s[2] if a not in clos]
-            base = set()
-            for a in others:
-                base |= ingredients(prog, fn, a, depth - 1, seen)
-            out = set(base)
+            recv = others[:1]
+            seed = others[1:2] if _FOLDS.search(strip_generics(name)) else []
+            out = set()
+            for a in seed:
+                out |= ingredients(prog, fn, a, depth, seen)
             for c in clos:
-                cf = prog.get(unwrap_chain(c)[2])
+                cu = unwrap_chain(c)
+                cf = prog.get(cu[2])
                 if cf is None:
-                    out.add("UNKNOWN:closure")
+                    out.add(("LEAF", frozenset({"CONST:closure"}), frozenset(), "opaque closure"))
                     continue
-                summ = fn_ingredients(prog, cf, depth - 1) or set()
-                for r in summ:
+                captures = list(cu[3])
+
+                def arg_of(p, captures=captures, recv=recv, seed=seed):
+                    if p == 1:
+                        return captures
+                    if seed and p == 2:
+                        return seed
+                    return recv
+                for r in fn_ingredients(prog, cf, depth - 1) or set():
                     if isinstance(r, tuple) and r[0] == "PARAM":
-                        out |= {x for x in base}
+                        if seed and r[1] == 2:
+                            continue            # the accumulator: already counted through the seed
+                        for a in arg_of(r[1]) or []:
+                            out.add(_leaf_item(fn, a))
+                    elif isinstance(r, tuple):
+                        out.add(_subst_leaf(fn, r, arg_of))
                     else:
                         out.add(r)
             return out
-        return _leaf_or_params(fn, s)
-    return _leaf_or_params(fn, s)
-
-
-def _leaf_or_params(fn, s):
-    """A leaf that cannot be classified inside this function but is derived from its parameters is classified by the
-    caller from what it passes (`fn value_of(o: &MultiEraOutput) -> Value { o.value().into_conway() }`)."""
-    r = classify_leaf(fn, s)
-    if r.startswith("UNKNOWN"):
-        ps = set()
-        for e in expansions(fn, s):
-            for x in sym_walk(e):
-                if x[0] == "param":
-                    ps.add(x[1])
-        if ps:
-            return {("PARAM", i) for i in ps}
-    return {r}
+        return {_leaf_item(fn, s)}
+    return {_leaf_item(fn, s)}
 
 
 _FN_INGR = {}
 
 
-def fn_ingredients(prog, g, depth=5):
-    """Ingredients of the Value a function returns (through Ok / directly)."""
+def fn_ingredients(prog, g, depth=8):
+    """Ingredients of the Value a function returns (through Ok / directly), in terms of its own parameters."""
     key = (id(prog), g.path)
     if key in _FN_INGR:
         return _FN_INGR[key]
@@ -869,8 +1024,8 @@ def fn_ingredients(prog, g, depth=5):
         for si, s in enumerate(b["st"]):
             if s[0] == "a" and pl_local(s[1]) == 0 and not pl_proj(s[1]):
                 rv = s[2]
-                if rv["k"] == "agg" and rv.get("ak") == "adt" and rv["adt"] == "core::result::Result":
-                    if rv["variant"] == "Ok" and rv["fields"]:
+                if rv["k"] == "agg" and rv.get("ak") == "adt" and rv["adt"] in ("core::result::Result", "core::option::Option", "core::ops::control_flow::ControlFlow"):
+                    if rv["variant"] in ("Ok", "Some", "Continue") and rv["fields"]:
                         found = True
                         out |= ingredients(prog, g, g.sym_operand(rv["fields"][0]), depth)
                     continue
@@ -883,6 +1038,27 @@ def fn_ingredients(prog, g, depth=5):
     res = out if found else None
     _FN_INGR[key] = res
     return res
+
+
+def resolve_roles(fn, items):
+    """Final roles of the addends of a sum in the function where the sum is compared."""
+    out = set()
+    for r in items:
+        if not isinstance(r, tuple):
+            out.add(r)
+        elif r[0] == "PARAM":
+            out.add("UNKNOWN:value passed in as parameter `%s`" % fn.local_name(r[1]))
+        elif r[0] == "MINTARG":
+            m = r[1]
+            out.add("MINT" if "MINT" in m and not (m & {"FEE", "OUTPUTS", "UTXO"}) else "UNKNOWN:minted-operand(%s)" % ",".join(sorted(m)))
+        else:
+            m = {x for x in r[1] if not x.startswith("CONST:")}
+            consts = [x for x in r[1] if x.startswith("CONST:")]
+            if consts and not m:
+                out.add("UNKNOWN:%s" % consts[0][6:])
+            else:
+                out.add(classify_markers(m, r[3]))
+    return out
 
 
 # ------------------------------------------------------------------------------------------------ tabulation with helpers inlined
